@@ -688,6 +688,47 @@ def sentence_field_cases(rng, tier):
         add(gen.valid_sentence(rng))
     return out
 
+def sentence_pairwise_cases(rng, tier):
+    """every pair of the dimensions of a sentence at every pair of their noteworthy values — start delimiter, talker /
+    report type (known, lower case, unknown), TAG block (none, plain, with commas, hostile), sequence id, channel
+    (none, one, several characters), payload (a type per bucket, lower-case first character, unsupported type), fill,
+    what follows the checksum (nothing, a line end, a logger's fields, another sentence) — the other dimensions random:
+    a dependence of the handling of one part of the line on ONE other part shows on one of these; decoded and not"""
+    out = []
+    pays = []
+    for t in (1, 18, 5, 21, 27, 16):
+        pays.append(gen.armor(gen.message_bits(rng, t, 'random')))
+    p18, f18 = gen.armor(gen.message_bits(rng, 18, 'random'))
+    pays += [(b'b' + p18[1:], f18), (b'k' + p18[1:], f18), (b'F' + p18[1:], f18), (bytes(rng.choice(b'abcdefghijklmnopqrstuvw') for _ in range(28)), 0)]
+    dims = {
+        'start': [b'!', b'$'],
+        'addr': [b'AIVDM', b'AIVDO', b'aivdm', b'AIvdm', b'XXVDM', b'AIXXX', b'BSVDM', b'\xc1IVDM'],
+        'tag': [None, b's:1*6F', b's:rx1,c:1696241893*0A', b'g:1-2-73874,n:5*00', gen.hostile_tag_block(rng), b''],
+        'sid': [None, 0, 3, b'03'],
+        'chan': [b'A', b'B', b'', b'AB', b'1'],
+        'pay': pays,
+        'tail': [b'', b'\r\n', b'\n', b',1696241893', b',x,y', b' ', b'\r\n!AIVDM,1,1,,A,15M,0*6F'],
+        'frag': [(1, 1), (2, 1), (1, 1)],
+    }
+    names = list(dims)
+    def build(choice):
+        pay, fill = choice['pay']
+        n, k = choice['frag']
+        return gen.sentence(pay, fill, n, k, choice['sid'], chan=choice['chan'], addr=choice['addr'], start=choice['start'], tag=choice['tag'], tail=choice['tail'])
+    for i in range(len(names)):
+        for j in range(i + 1, len(names)):
+            for va in dims[names[i]]:
+                for vb in dims[names[j]]:
+                    choice = {nm: rng.choice(vs) for nm, vs in dims.items()}
+                    # mostly ordinary values in the other dimensions, so that the line gets far enough for the pair to matter
+                    for nm in names:
+                        if nm not in (names[i], names[j]) and rng.random() < 0.6: choice[nm] = dims[nm][0]
+                    choice[names[i]] = va; choice[names[j]] = vb
+                    line = build(choice)
+                    for d in (0, 1):
+                        out.append('H'); out.append(L(0, d, line))
+    return out
+
 def address_sweeps(rng, tier):
     """C07: the two address tables exhaustively — all 2^16 talkers and all 2^24 three-byte report
     types (256 sweeps), plus talker x first report byte"""
